@@ -242,7 +242,8 @@ func (s *ReverseSuffixSetSearcher) findIndicesAtImpl(haystack []byte, at int, re
 			if matchEnd >= 0 {
 				return matchStart, matchEnd, true
 			}
-			return s.pikevm.SearchAt(haystack, matchStart)
+			// The forward DFA gave up: let the NFA engine answer, below.
+			matchStart = lazy.SearchReverseLimitedQuadratic
 		}
 		if matchStart == lazy.SearchReverseLimitedQuadratic {
 			// Quadratic behavior detected - fall back to PikeVM
